@@ -119,4 +119,6 @@ fam('collget', depth=3, maxstack=3,
     inits=[(S(MAP(INT, STR), ('map', ((i(1), s('')), (i(3), s('w'))))),), (S(MAP(STR, BOOL), ('map', ((s(''), F_), (s('a'), T_)))),),
            (S(MAP(INT, LIST(INT)), ('map', ((i(0), lst()), (i(2), lst(i(0)))))),), (S(MAP(INT, OPT(INT)), ('map', ((i(1), none), (i(2), some(i(0)))))),)],
     alphabet=[PUSH(INT, i(1)), PUSH(INT, i(2)), PUSH(INT, i(0)), PUSH(STR, s('')), PUSH(STR, s('a')), ('GETK',), ('MEM',), ('IF_NONE', (('UNIT',), ('FAILWITH',)), ()),
-              ('SIZE',), DUP(2), ('SWAP',)])
+              ('SIZE',), DUP(2), ('SWAP',),
+              # a copy is a value of its own: update the copy (a new key / a removal), the original below stays what it was
+              ('SEQ', (DUP(1), PUSH(OPT(STR), some(s('n'))), PUSH(INT, i(7)), ('UPDATEK',))), ('SEQ', (DUP(1), PUSH(OPT(STR), none), PUSH(INT, i(1)), ('UPDATEK',)))])
